@@ -156,6 +156,27 @@ func totalInputs(fmtName string, salt int64, nNoise int) [][]byte {
 	for _, w := range well {
 		out = append(out, w.Data)
 	}
+	// texts that were NOT produced by the writer under test (a lossy writer is invisible in its own output):
+	// numbers with many significant digits, extreme magnitudes, alternative spellings
+	floats := []string{"0.0123456789012", "16777217", "1e40", "1e-50", "3.141592653589793", "-2.2250738585072014e-308",
+		"0x1.fffffffffffffp+1023", "1.7976931348623157e308", "4.9e-324", "123456789.123456789", "0.1", "-0.30000000000000004"}
+	switch fmtName {
+	case "newick":
+		for i := 0; i < 12+nNoise/10; i++ {
+			f := func() string { return floats[r.Intn(len(floats))] }
+			out = append(out, []byte("(a:"+f()+",'b c':"+f()+",(d:"+f()+")e)'it''s':"+f()+";\n"))
+		}
+	case "sam", "samh":
+		for i := 0; i < 12+nNoise/10; i++ {
+			f := func() string { return floats[r.Intn(len(floats))] }
+			out = append(out, []byte("q\t+4\tr\t007\t-0\t*\t=\t9223372036854775807\t-9223372036854775808\tAC\t!!\tXA:f:"+f()+
+				"\tXB:f:"+f()+"\tXC:i:+12\tXD:H:0aFf\tXE:B:c,1,2\tXF:A:~\n"))
+		}
+	case "bed":
+		for i := 0; i < 6; i++ {
+			out = append(out, []byte("c\t+1\t007\tn\t-0\t.\t0\t00\t0x10,017,0b11\t2\t1,+2\t-3,04\n"))
+		}
+	}
 	return out
 }
 
